@@ -50,6 +50,31 @@ func (dv *defaultVerifierSimple) verifyRoot(root *Node) ([]string, []string, err
 
 	dirsFilesystem := map[string]struct{}{}
 	extraDirs := []string{}
+
+	rootPath := filepath.Join(dv.targetDir, root.path())
+	fi, err := os.Stat(rootPath)
+	if err != nil {
+		if !errors.Is(err, fs.ErrNotExist) {
+			return nil, nil, err
+		}
+		// the root itself does not exist: every path of this root is required and missing
+		noExistDirs := []string{}
+		for dir := range dirsMarkdown {
+			noExistDirs = append(noExistDirs, dir)
+		}
+		return extraDirs, noExistDirs, nil
+	}
+	if !fi.IsDir() {
+		// the root is a file (e.g. made by Mkdir with a file extension): nothing exists beneath it
+		noExistDirs := []string{}
+		for dir := range dirsMarkdown {
+			if dir != rootPath {
+				noExistDirs = append(noExistDirs, dir)
+			}
+		}
+		return extraDirs, noExistDirs, nil
+	}
+
 	if err := fs.WalkDir(
 		os.DirFS(filepath.Join(dv.targetDir, root.path())),
 		".",
